@@ -113,8 +113,7 @@ class LockTS:
             return False
         if l in self.tracked:
             return True
-        base = self.ba.base_local_of_ref(l)
-        return base in self.tracked
+        return any(x in self.tracked for x in self.ba.ref_chain(l))
 
     def _escapes(self, blk):
         """By-value uses of the tracked object in this block: [(kind, detail)]."""
@@ -165,6 +164,23 @@ class LockTS:
             if call_matches(ct, M_ANY) and self.is_recv(ct):
                 sw = b.blocks[br]["term"].get("target")
                 self.try_of[sw] = (ct, cont, brk)
+        # `if let Some(..) = container.as_mut()` on the Option that holds the tracked lock: the object
+        # exists iff the container is Some, so the not-Some edge carries no lock state
+        self.kill_edges = set()
+        if self.single_object:
+            for sw in sorted(ba.live):
+                es = ba.enum_switch(sw)
+                if not es:
+                    continue
+                place, arms, other = es
+                d = ba.single_def(place["l"])
+                if not d or d[0] != "call" or not call_matches(d[2], r"core::option::Option::(as_mut|as_ref)"):
+                    continue
+                chain = ba.ref_chain(op_local(d[2]["args"][0]))
+                if any(b.locals[x].startswith("core::option::Option<") and LOCK in b.locals[x] for x in chain):
+                    for s in b.succ(sw):
+                        if s != arms.get(1):
+                            self.kill_edges.add((sw, s))
         self.pending_result = {}
         while work:
             bb = work.popleft()
@@ -200,7 +216,7 @@ class LockTS:
                     self.pending_result[t["target"]] = (ok_state, err_state)
             if t["t"] == "drop":
                 pl = t["place"]
-                if not pl["p"] and pl["l"] in self.tracked and t["ty"] == LOCK:
+                if not pl["p"] and pl["l"] in self.tracked and t["ty"] == LOCK and not self.single_object:
                     self._ev[(bb, "drop", "")] = frozenset(st)
                     # after the drop the object is gone on this path
                     continue
@@ -230,6 +246,8 @@ class LockTS:
                         self._flow(s, st, work)
                 continue
             for s in b.succ(bb):
+                if (bb, s) in self.kill_edges:
+                    continue
                 self._flow(s, out_default, work)
 
     def _flow(self, bb, st, work):
